@@ -32,7 +32,7 @@ W.preload([A, B, B4])
 # 'c:<phases>' = Stream cast to MultiStream through `stream.phases = ...`
 KINDS = {'l': 'l', 'g': 'g', 's': 's', 'L': 'L', 'S': 'S',
          'm:l': ('l',), 'm:g': ('g',), 'm:gl': ('g', 'l'), 'm:Ll': ('L', 'l'), 'm:gls': ('g', 'l', 's'),
-         'm:gL': ('L', 'g'), 'm:ls': ('l', 's'),
+         'm:gL': ('L', 'g'), 'm:ls': ('l', 's'), 'm:Ls': ('L', 's'), 'm:L': ('L',),
          'c:gl': ('g', 'l'), 'c:Ll': ('L', 'l')}
 
 
@@ -154,11 +154,14 @@ def views_consistent(w, s):
     if not isinstance(s, tmo.MultiStream):
         return True
     cs = []
-    for ph, row in zip(s.phases, s.imol.data.rows):
-        v = s[ph]
-        cs.append(v.mol is row)
-        cs.append(v._thermal_condition is s._thermal_condition)
-        cs.append(v.phase == ph)
+    try:
+        for ph, row in zip(s.phases, s.imol.data.rows):
+            v = s[ph]
+            cs.append(v.mol is row)
+            cs.append(v.thermal_condition is s.thermal_condition)
+            cs.append(v.phase == ph)
+    except AttributeError:      # a stream that cannot even produce its views is not consistent
+        return False
     return w.And(*cs)
 
 
@@ -239,8 +242,8 @@ def copy_like_configs(tier):
     sources = ['l', 'g', 's', 'L', 'm:l', 'm:gl', 'm:Ll', 'm:gls']
     pkgs = ['AA', 'AB']
     if tier == 'thorough':
-        targets += ['s', 'L', 'm:g', 'm:gL', 'm:gls', 'c:gl']
-        sources += ['m:g', 'm:gL', 'S', 'c:gl', 'm:ls']
+        targets += ['s', 'L', 'm:g', 'm:gL', 'm:gls', 'c:gl', 'm:ls']
+        sources += ['m:g', 'm:gL', 'S', 'c:gl', 'm:ls', 'm:Ls', 'm:L']
         pkgs += ['AB4', 'BA']
     out = []
     for t, s, p in itertools.product(targets, sources, pkgs):
@@ -251,6 +254,9 @@ def copy_like_configs(tier):
             fills += ['empty']
         for f in fills:
             out.append({'name': f't={t};s={s};pkg={p};fill={f}', 't': t, 's': s, 'pkg': p, 'fill': f})
+    else:
+        for p in pkgs:      # phases that differ only by case (compatible phase indexers)
+            out.append({'name': f't=m:l;s=m:L;pkg={p};fill=pos+maybe', 't': 'm:l', 's': 'm:L', 'pkg': p, 'fill': 'pos+maybe'})
     if tier == 'thorough':
         out.append({'name': 't=SELF;s=l;pkg=AA;fill=pos+maybe', 't': 'SELF', 's': 'l', 'pkg': 'AA', 'fill': 'pos+maybe'})
         out.append({'name': 't=SELF;s=m:gl;pkg=AA;fill=pos+maybe', 't': 'SELF', 's': 'm:gl', 'pkg': 'AA', 'fill': 'pos+maybe'})
@@ -286,7 +292,15 @@ def copy_like(w, cfg):
     if _is_multi(cfg['t']):
         for ph in t.phases: t[ph]            # per-phase views exist before the call (they are cached by the stream)
     pre = obs(s)
-    t.copy_like(s)
+    try:
+        t.copy_like(s)
+    except tmo.exceptions.UndefinedChemicalAlias:
+        # raises: allowed exactly when the source holds material of a chemical the target's package lacks
+        lacking = [v for (p, cas), v in pre['flows'].items() if cas not in t.chemicals.CASs]
+        w.ensure('raises UndefinedChemicalAlias only if the source holds a chemical the target lacks',
+                 w.Or(*[w.ne(v, 0.) for v in lacking]))
+        w.ensure('source unchanged', same_obs(w, pre, obs(s)))
+        return
     ot = obs(t)
     w.ensure('T and P equal to the source', same_TP(w, ot, pre))
     if _is_multi(cfg['t']):
@@ -307,3 +321,183 @@ def copy_like(w, cfg):
     k0 = sorted(pre['flows'], key=str)
     if k0:
         w.canary('canary: source flow doubled', w.eq(pre['flows'][k0[0]], 2 * pre['flows'][k0[0]] + 1))
+
+
+# =========================================================================== copy_thermal_condition / copy_phase
+
+def tc_configs(tier):
+    kinds = ['l', 'm:gl'] if tier != 'thorough' else ['l', 'g', 'm:l', 'm:gl', 'm:Ll', 'c:gl']
+    return [{'name': f't={t};s={s_}', 't': t, 's': s_} for t in kinds for s_ in kinds]
+
+
+@group('C13/copy_thermal_condition', configs=tc_configs,
+       functions=['thermosteam._stream:Stream.copy_thermal_condition', 'thermosteam._thermal_condition:ThermalCondition.copy_like'])
+def copy_thermal_condition(w, cfg):
+    W.reset_caches()
+    s = _mk(w, 's', cfg['s'], 'B')
+    t = _mk(w, 't', cfg['t'], 'A')
+    pre_s, pre_t = obs(s), obs(t)
+    t.copy_thermal_condition(s)
+    ot = obs(t)
+    w.ensure('T and P equal to the source', same_TP(w, ot, pre_s))
+    w.ensure('flows and phase(s) of the target unchanged', same_flows(w, ot, pre_t))
+    w.ensure('source unchanged', same_obs(w, pre_s, obs(s)))
+    w.ensure('thermal condition not shared', t.thermal_condition is not s.thermal_condition)
+    havoc(w, t, 'wt', flows=False, phase=False)
+    w.ensure('later write to the target is not visible in the source', same_obs(w, pre_s, obs(s)))
+    w.canary('canary: T = source T + 1', w.eq(ot['T'], pre_s['T'] + 1))
+
+
+def phase_configs(tier):
+    ph = ['l', 'g', 's', 'L']
+    return [{'name': f't={t};s={s_}', 't': t, 's': s_} for t in ph for s_ in ph + ['m:gl']
+            if tier == 'thorough' or (t, s_) in (('l', 'g'), ('g', 'l'), ('l', 'L'), ('s', 's'), ('l', 'm:gl'))]
+
+
+@group('C13/copy_phase', configs=phase_configs, functions=['thermosteam._stream:Stream.copy_phase'])
+def copy_phase(w, cfg):
+    W.reset_caches()
+    s = _mk(w, 's', cfg['s'], 'A')
+    t = _mk(w, 't', cfg['t'], 'A')
+    pre_s, pre_t = obs(s), obs(t)
+    try:
+        t.copy_phase(s)
+    except ValueError:
+        w.ensure('raises ValueError only for a multi-phase source', _is_multi(cfg['s']))
+        w.ensure('target unchanged when copy_phase raises', same_obs(w, pre_t, obs(t)))
+        w.canary('canary: T changed', w.eq(obs(t)['T'], pre_t['T'] + 1))
+        return
+    ot = obs(t)
+    w.ensure('phase equal to the source', ot['phases'] == pre_s['phases'])
+    w.ensure('flows, T, P of the target unchanged', w.And(eq_map(w, ot['rowflows'], pre_t['rowflows']), same_TP(w, ot, pre_t)))
+    w.ensure('source unchanged', same_obs(w, pre_s, obs(s)))
+    w.ensure('phase container not shared', t.imol._phase is not s.imol._phase)
+    w.canary('canary: T changed', w.eq(ot['T'], pre_t['T'] + 1))
+
+
+# =========================================================================== link_with / unlink / proxy / flow_proxy
+
+FLAGS = list(itertools.product([False, True], repeat=3))      # (flow, phase, TP)
+
+
+def link_configs(tier):
+    pairs = [('l', 'g'), ('m:gl', 'm:gl'), ('c:gl', 'c:gl')]
+    if tier == 'thorough':
+        pairs += [('l', 'l'), ('s', 'L'), ('m:gl', 'c:gl'), ('m:Ll', 'm:Ll'), ('m:gls', 'm:gls'), ('m:l', 'm:l')]
+    out = []
+    for (ka, kb) in pairs:
+        for fl in FLAGS:
+            if _is_multi(ka) and tier != 'thorough' and ka == 'c:gl' and fl not in ((True, True, True), (True, False, False)):
+                continue
+            for un in ['a', 'b']:
+                op = 'link:' + ''.join(n for n, f in zip(('flow', 'phase', 'TP'), fl) if f).replace('flowphase', 'flow+phase').replace('phaseTP', 'phase+TP').replace('flowTP', 'flow+TP') if any(fl) else 'link:none'
+                op = 'link:' + ('+'.join(n for n, f in zip(('flow', 'phase', 'TP'), fl) if f) or 'none')
+                out.append({'name': f'a={ka};b={kb};op={op};unlink={un}', 'a': ka, 'b': kb, 'op': 'link', 'flags': list(fl), 'unlink': un})
+    proxied = ['l', 'g', 'm:gl', 'c:gl'] + (['s', 'm:l', 'm:Ll', 'c:Ll', 'm:gls'] if tier == 'thorough' else [])
+    for kb in proxied:
+        for op in ['proxy', 'flow_proxy']:
+            for un in ['a', 'b']:
+                out.append({'name': f'a=new;b={kb};op={op};unlink={un}', 'a': None, 'b': kb, 'op': op, 'flags': None, 'unlink': un})
+    # streams of different classes cannot link (raises by contract)
+    out.append({'name': 'a=l;b=m:gl;op=link:flow+phase+TP;unlink=a', 'a': 'l', 'b': 'm:gl', 'op': 'link', 'flags': [True, True, True], 'unlink': 'a'})
+    out.append({'name': 'a=m:gl;b=l;op=link:flow+phase+TP;unlink=a', 'a': 'm:gl', 'b': 'l', 'op': 'link', 'flags': [True, True, True], 'unlink': 'a'})
+    # multi-phase streams with different phase tuples
+    for fl in ([True, True, True], [True, False, False]):
+        op = 'link:' + '+'.join(n for n, f in zip(('flow', 'phase', 'TP'), fl) if f)
+        out.append({'name': f'a=m:gl;b=m:Ll;op={op};unlink=a', 'a': 'm:gl', 'b': 'm:Ll', 'op': 'link', 'flags': fl, 'unlink': 'a'})
+    return out
+
+
+def _part(o, part, multi):
+    if part == 'flow':
+        return dict(o['flows']) if multi else dict(o['rowflows'])
+    if part == 'phase':
+        return o['phases']
+    return {'T': o['T'], 'P': o['P']}
+
+
+def _part_eq(w, x, y):
+    if isinstance(x, tuple):
+        return x == y
+    return eq_map(w, x, y)
+
+
+def _part_shared(a, b, part):
+    if part == 'flow':
+        return a.imol.data is b.imol.data
+    if part == 'phase':
+        return a.imol._phase is b.imol._phase
+    return a.thermal_condition is b.thermal_condition
+
+
+@group('C13/link', configs=link_configs,
+       functions=['thermosteam._stream:Stream.link_with', 'thermosteam._stream:Stream.unlink',
+                  'thermosteam._stream:Stream.proxy', 'thermosteam._stream:Stream.flow_proxy',
+                  'thermosteam.indexer:ChemicalIndexer._copy_without_data', 'thermosteam.indexer:MaterialIndexer._copy_without_data',
+                  'thermosteam._multi_stream:MultiStream.__getitem__', 'thermosteam._multi_stream:MultiStream.reset_cache'])
+def link(w, cfg):
+    W.reset_caches()
+    kb = cfg['b']
+    b = _mk(w, 'b', kb, 'A')
+    multi = _is_multi(kb)
+    parts = ['flow', 'TP'] if multi else ['flow', 'phase', 'TP']
+    if multi:
+        for ph in b.phases: b[ph]          # per-phase views are handed out (and cached) before linking
+    pre_b = obs(b)
+    if cfg['op'] == 'link':
+        a = _mk(w, 'a', cfg['a'], 'A')
+        if _is_multi(cfg['a']):
+            for ph in a.phases: a[ph]
+        pre_a = obs(a)
+        sel = dict(zip(('flow', 'phase', 'TP'), cfg['flags']))
+        try:
+            a.link_with(b, *cfg['flags'])
+        except RuntimeError:
+            w.ensure('raises RuntimeError only for streams of different classes', _is_multi(cfg['a']) != multi)
+            w.ensure('nothing changed when link_with raises', w.And(same_obs(w, pre_a, obs(a)), same_obs(w, pre_b, obs(b))))
+            w.canary('canary: T changed', w.eq(obs(a)['T'], pre_a['T'] + 1))
+            return
+        w.ensure('link_with does not raise for streams of the same class', _is_multi(cfg['a']) == multi)
+    else:
+        a = b.proxy() if cfg['op'] == 'proxy' else b.flow_proxy()
+        pre_a = None
+        sel = {'flow': True, 'phase': cfg['op'] == 'proxy', 'TP': cfg['op'] == 'proxy'}
+    oa, ob = obs(a), obs(b)
+    w.ensure('source unchanged by linking', same_obs(w, pre_b, ob))
+    for part in parts:
+        if sel[part]:
+            w.ensure(f'{part} selected: container shared', _part_shared(a, b, part))
+            w.ensure(f'{part} selected: values equal to the source', _part_eq(w, _part(oa, part, multi), _part(ob, part, multi)))
+        else:
+            w.ensure(f'{part} not selected: container not shared', not _part_shared(a, b, part))
+            if pre_a is not None:
+                w.ensure(f'{part} not selected: values unchanged', _part_eq(w, _part(oa, part, multi), _part(pre_a, part, multi)))
+    if multi and sel['flow']:
+        w.ensure('flow selected: phases equal to the source', oa['phases'] == ob['phases'], a=oa['phases'], b=ob['phases'])
+    w.ensure('linked: phase views consistent', w.And(views_consistent(w, a), views_consistent(w, b)))
+    # write-through exactly for the selected parts, both directions
+    for src, dst, tag in ((b, a, 'wb'), (a, b, 'wa')):
+        before = obs(dst)
+        havoc(w, src, tag)
+        osrc, odst = obs(src), obs(dst)
+        for part in parts:
+            if sel[part]:
+                w.ensure(f'{part} selected: write to {tag[1]} visible in the other', _part_eq(w, _part(odst, part, multi), _part(osrc, part, multi)))
+            else:
+                w.ensure(f'{part} not selected: write to {tag[1]} not visible in the other', _part_eq(w, _part(odst, part, multi), _part(before, part, multi)))
+    w.canary('canary: unshared T follows', w.eq(obs(a)['T'], obs(b)['T'] + 1))
+    # unlink ends all sharing and preserves values
+    u, o = (a, b) if cfg['unlink'] == 'a' else (b, a)
+    pu, po = obs(u), obs(o)
+    u.unlink()
+    w.ensure('unlink preserves the values of the unlinked stream', same_obs(w, pu, obs(u)))
+    w.ensure('unlink preserves the values of the other stream', same_obs(w, po, obs(o)))
+    w.ensure('after unlink no container is shared', shared_roles(a, b) == [], shared=shared_roles(a, b))
+    w.ensure('after unlink: phase views consistent', w.And(views_consistent(w, a), views_consistent(w, b)))
+    pb = obs(b)
+    havoc(w, a, 'ua')
+    w.ensure('after unlink a write to a is not visible in b', same_obs(w, pb, obs(b)))
+    pa = obs(a)
+    havoc(w, b, 'ub')
+    w.ensure('after unlink a write to b is not visible in a', same_obs(w, pa, obs(a)))
+    w.canary('canary: after unlink T still follows', w.eq(obs(a)['T'], obs(b)['T']))
